@@ -17,6 +17,23 @@ namespace rkcommon {
 namespace rkverif {
   using rkcommon::utility::TransactionalValue;
 
+  // heap-owning payload with user-declared copy operations only: "moving" it copies and may throw
+  struct C12CopyOnly
+  {
+    C12CopyOnly() {}
+    C12CopyOnly(const C12CopyOnly &o) : text(o.text) {}
+    C12CopyOnly &operator=(const C12CopyOnly &o)
+    {
+      text = o.text;
+      return *this;
+    }
+    bool operator==(const C12CopyOnly &o) const
+    {
+      return text == o.text;
+    }
+    std::string text;
+  };
+
   // TransactionalValue cannot be instantiated explicitly as a whole: its copy-assignment calls the
   // non-const ref() on a const argument and does not compile once instantiated.  Every other member is
   // odr-used here for the same three payload kinds.
@@ -59,5 +76,6 @@ namespace rkverif {
     c12_use_value<std::string>(std::string("x"));
     c12_use_value<std::string>("literal");
     c12_use_value<std::vector<int>>(std::vector<int>{1, 2});
+    c12_use_value<C12CopyOnly>(C12CopyOnly());
   }
 }  // namespace rkverif
